@@ -181,7 +181,8 @@ func (ld *Loaded) findFunc(key string) *ssa.Function {
 func newExec(ld *Loaded) *Exec {
 	return &Exec{prog: ld.prog, fset: ld.fset, contracts: ld.cs, warnings: map[string]int{}, globals: map[*ssa.Global]*Obj{},
 		inlineMax: 14, maxStates: 60000, loopInfo: map[*ssa.Function]*LoopInfo{}, pureCache: map[*ssa.Function]*effectSummary{},
-		useContracts: true, noContractFor: map[string]bool{}, assumed: map[string]int{}}
+		useContracts: true, noContractFor: map[string]bool{}, assumed: map[string]int{},
+		initDone: map[*ssa.Package]bool{}, inInit: map[*ssa.Package]bool{}, globalVals: map[*ssa.Global]*Term{}, initStates: map[*ssa.Package]*State{}}
 }
 
 // ---------------------------------------------------------------- property specs
@@ -404,6 +405,10 @@ func runCheck(o *checkOpts) int {
 			r := &ObResult{Name: c.Name, Kind: "cover", Claimed: true, Records: 1}
 			r.query = &Query{Name: c.Name, Assumes: append(append([]*Term{}, ex.axioms...), dropQuantified(c.PC)), Cover: true}
 			queries = append(queries, r)
+			// consistency: the full path condition (with quantified definitional facts and all axioms) must not be refutable
+			r2 := &ObResult{Name: strings.Replace(c.Name, "#cover:", "#consistency:", 1), Kind: "consistency", Claimed: true, Records: 1}
+			r2.query = &Query{Name: r2.Name, Assumes: append(append([]*Term{}, ex.axioms...), c.PC), Cover: true}
+			queries = append(queries, r2)
 		}
 	}
 	tGen := time.Since(t0).Seconds() - tLoad
@@ -474,6 +479,12 @@ func report(o *checkOpts, spec *PropSpec, ld *Loaded, results []*ObResult, engin
 	exit := 0
 	for _, r := range results {
 		solverTime += r.TimeS
+		if r.Kind == "consistency" {
+			if r.Verdict == "unsat" {
+				engineErrs = append(engineErrs, "inconsistency: "+r.Name+" — the assumptions of this function are contradictory (every proof for it would be vacuous)")
+			}
+			continue
+		}
 		if r.Kind == "cover" {
 			// must be satisfiable
 			if r.Verdict == "sat" {
@@ -621,7 +632,7 @@ func containsQuant(t *Term) bool {
 func unclaimedList(results []*ObResult) []map[string]string {
 	var out []map[string]string
 	for _, r := range results {
-		if !r.Claimed && r.Kind != "cover" {
+		if !r.Claimed && r.Kind != "cover" && r.Kind != "consistency" {
 			out = append(out, map[string]string{"obligation": r.Name, "kind": r.Kind, "verdict": r.Verdict})
 		}
 	}
